@@ -7,5 +7,6 @@ mkdir -p "$HERE/bin" "$HERE/evidence" "$HERE/replays" "$HERE/logs"
 cd "$HERE/harness" || exit 1
 go build -tags verif -o "$HERE/bin/.warm" ./cmd/check || exit 1
 go build -race -tags verif -o "$HERE/bin/.warm.race" ./cmd/check || exit 1
-rm -f "$HERE/bin/.warm" "$HERE/bin/.warm.race"
+( cd "$HERE/interop" && go build -tags verif -o "$HERE/bin/.warm.interop" . ) || echo "note: grpc-go interop module did not build; C05 will count it inconclusive"
+rm -f "$HERE/bin/.warm" "$HERE/bin/.warm.race" "$HERE/bin/.warm.interop"
 echo "setup ok"
